@@ -903,7 +903,7 @@ impl<'a> G<'a> {
     }
     /// A record (or primitive) in item position.
     fn value(&mut self, depth: u32) {
-        if depth == 0 || self.rng.chance(1, 2) {
+        if depth == 0 || self.rng.chance(2, 5) {
             self.prim();
             return;
         }
@@ -987,7 +987,7 @@ impl<'a> G<'a> {
 fn gen_grammar_text(rng: &mut Rng) -> String {
     let mut g = G { rng, out: String::new() };
     g.ws();
-    let depth = *g.rng.pick(&[0u32, 1, 2, 3, 4]);
+    let depth = *g.rng.pick(&[0u32, 1, 2, 2, 3, 3, 4, 5]);
     g.value(depth);
     if g.rng.chance(1, 3) {
         g.ws();
